@@ -177,6 +177,15 @@ def one_step(ctx, cases, order, dis):
     return rows
 
 
+def long_run_failed(ctx, cfg, err):
+    """these configurations are weak, stable impedances that reach a stationary state on the pinned tree in the
+    allotted number of periods: a run that crashes, times out or ends with a non-positive / non-finite profile
+    is reported with the configuration as replay"""
+    ctx.violation("impl-oracle", "long run did not end in a positive, finite profile: %s" % (str(err)[:300],),
+                  case={"kind": "long-run", "cfg": cfg}, observed=str(err)[:300], expected="stationary state",
+                  sig={"stage": "long-run", "what": "run-failed"})
+
+
 def explore(ctx):
     """long-run residual of the Haissinski equation and the energy spread on the real binary"""
     import haiss_explore as he
@@ -191,16 +200,23 @@ def explore(ctx):
         ctx.extra["program_level_wake"] = pw
         if ctx.quick():
             for cfg in cfgs:
-                rec = he.run_config(tg, cfg, wd, 600)
-                out.append(he.judge(ctx, cfg, rec))
+                try:
+                    rec = he.run_config(tg, cfg, wd, 600)
+                    out.append(he.judge(ctx, cfg, rec))
+                except (RuntimeError, ArithmeticError, ValueError) as e:
+                    long_run_failed(ctx, cfg, e)
         else:
             # thorough: the runs (and the reference runs they need) side by side, judged afterwards
             res = he.run_many(tg, cfgs, wd, 3000, jobs=8, log=ctx.log)
             for cfg in cfgs:
                 rec, ref = res.get(he.cfg_name(cfg)), res.get(he.cfg_name(he.reference_config(cfg)))
                 if not isinstance(rec, dict) or not isinstance(ref, dict):
-                    raise RuntimeError("long run %s failed: %r" % (he.cfg_name(cfg), rec if not isinstance(rec, dict) else ref))
-                out.append(he.judge(ctx, cfg, rec, ref=ref))
+                    long_run_failed(ctx, cfg, rec if not isinstance(rec, dict) else ref)
+                    continue
+                try:
+                    out.append(he.judge(ctx, cfg, rec, ref=ref))
+                except (RuntimeError, ArithmeticError, ValueError) as e:
+                    long_run_failed(ctx, cfg, e)
     finally:
         shutil.rmtree(wd, ignore_errors=True)
     ctx.extra["explored_long_run"] = out
@@ -241,6 +257,18 @@ def run(ctx, only=None):
         "Fokker-Planck map not modelled in this family (C04); only its effect on the global mean energy is checked",
         "PARTIAL: the long-run stationary state is explored on the binary, not proved",
     ]
+    # downgrade rule of DESIGN 2.2 for the scaling translator only: if it no longer recognises the source but the
+    # last-good generated expression (which the model and the theorems then use) still agrees, exactly, with the
+    # formula and, to 4 ulp, with getWakeScaling() on every case and with the recorded wake of the binary, the
+    # property is shown through tie 2 and the downgrade is recorded.  (No such fallback for the step order: the
+    # API harness applies the maps in the order it is given, so only the translator ties it to main().)
+    failed = [g for g, s in coq["gen"].items() if s.startswith("failed")]
+    if failed == ["Gen_WakeScale"] and coq["make_ok"] and coq["props"]["ok"] and not coq["forbidden"] \
+            and coq["extract_ok"] and not dis and not ctx.violations and ctx.evaluations > 0:
+        ctx.extra["translators"]["Gen_WakeScale"] = "downgraded-to-correspondence (" + coq["gen"]["Gen_WakeScale"][:200] + ")"
+        ctx.notes.append("Gen_WakeScale: translator failed, last-good expression validated against getWakeScaling() "
+                         "on every case and against the binary's recorded wake: downgraded to tie 2")
+        coq = dict(coq, ok=True)
     conclude(ctx, coq, dis)
 
 
